@@ -252,7 +252,9 @@ def confirm_fresh(engine: EngineBase, path: str, script: str, attempts: int = 1)
     env = dict(os.environ)
     env["PYTHONHASHSEED"] = "0"
     hits = 0
-    for _ in range(attempts):
+    for attempt in range(attempts):
+        # (retries run under other hash seeds: behaviour that depends on object addresses / set order varies with them)
+        env["PYTHONHASHSEED"] = str(attempt)
         try:
             r = subprocess.run([sys.executable, script, engine.prop, "--replay", path], env=env,
                                stdout=subprocess.PIPE, stderr=subprocess.STDOUT, timeout=600, text=True)
